@@ -46,7 +46,8 @@ From Atlas Require Sqlite.ConvergeTable.
 From Atlas Require Import Base.Bytes Diff.Schema Diff.DiffModel Diff.DiffSqlite
   Sqlite.PlanModel Sqlite.PlanProofs Sqlite.EngineModel Sqlite.InspectModel Sqlite.ConvergeDefs Sqlite.ConvergeStep
   Sqlite.Converge Sqlite.ConvergeSupported Sqlite.EngineRowsProofs Sqlite.ConvergeRows Sqlite.ConvergeParts Sqlite.ConvergeSyntactic
-  Sqlite.ConvergeFeature.
+  Sqlite.ConvergeFeature Sqlite.ConvergeExported Hcl.SpecModel Hcl.SpecProofs.
+From Atlas Require Hcl.SpecDiffAutoProofs.
 Import ListNotations.
 
 (** ** the theorems *)
@@ -154,6 +155,65 @@ Theorem C01_plan_fk_bracket :
       p_reversible p = set_reversible body /\ p_transactional p = true.
 Proof. exact plan_fk_bracket. Qed.
 Print Assumptions C01_plan_fk_bracket.
+
+(** ROUND 5 -- the desired schema is what `atlas schema inspect` printed for ANOTHER database.
+    Such a document lists the index behind an inline UNIQUE constraint under its reserved name
+    sqlite_autoindex_<t>_<n> and without sqlite.IndexOrigin.  [normalizeIdxName] (sql/sqlite/migrate.go) renames
+    it to <table>_<columns> at three places -- diff.Normalize, diff.FindGeneratedIndex, state.addIndexes.
+    [nrm B] is [B] with that renaming done once; [stable_b B]: the renaming succeeds (column parts only) and
+    its results are not reserved names again (decidable).  For EVERY current schema [A], engine database [d]
+    and desired [B] with [stable_b B]: the differ + planner return for [B] literally the plan they return for
+    [nrm B], and the second diff judges [B] as it judges [nrm B] -- the three call sites agree. *)
+Theorem C01_normalizeIdxName_sites_agree :
+  forall (nm : str) (A B : xschema) (d : db),
+    stable_b B = true ->
+    diff_and_plan nm A (nrm B) = diff_and_plan nm A B /\ (synced nm d (nrm B) <-> synced nm d B).
+Proof. intros nm A B d S. split; [exact (diff_and_plan_nrm nm A B S)|exact (synced_nrm nm d B S)]. Qed.
+Print Assumptions C01_normalizeIdxName_sites_agree.
+
+(** hence convergence for desired schemas WITH reserved index names (which [supported] excludes):
+    [supported_exported d B] = [stable_b B && supported d (nrm B)] *)
+Theorem C01_converges_exported :
+  forall (nm : str) (d : db) (B : xschema),
+    supported_exported d B = true ->
+    exists p d', diff_and_plan nm (inspect d) B = Some p /\ exec_all d (plan_stmts p) = Ok d' /\ synced nm d' B.
+Proof. exact converges_exported. Qed.
+Print Assumptions C01_converges_exported.
+
+(** ... composed with C03's export lemma (C03_hcl_normal_form: for a well-formed inspected schema the HCL
+    round trip MarshalHCL -> EvalHCL succeeds and returns [map norm_x]: defaults re-read, parts renumbered,
+    index origin dropped): export database d1, apply the document unedited to database d2.
+    FULL STATEMENT wanted: for all d1, d2 of the feature set.  PROVED: for all d1 with a well-formed inspected
+    schema and all d2 with [supported_exported d2 (map norm_x (inspect d1))] -- a decidable condition on the pair;
+    it holds when d2 is empty, lacks the table, lacks only the UNIQUE constraint, or holds it as the index
+    <t>_<cols> an earlier apply created (Examples below).  MISSING: a d2 that itself has inline UNIQUE
+    constraints (header, item (2): the invariant of the proof does not carry them; the stage `exported` covers
+    them against the model and the real engine), and deriving the condition from d1's catalogue alone. *)
+Theorem C01_converges_from_exported_hcl :
+  forall (nm : str) (d1 d2 : db),
+    schema_wf (inspect d1) ->
+    supported_exported d2 (map norm_x (inspect d1)) = true ->
+    exists B p d', hcl_roundtrip (inspect d1) = ROk B /\
+      diff_and_plan nm (inspect d2) B = Some p /\ exec_all d2 (plan_stmts p) = Ok d' /\ synced nm d' B.
+Proof. exact converges_from_exported_hcl. Qed.
+Print Assumptions C01_converges_from_exported_hcl.
+
+(** D2 = D1 (the relation `same` of the stage, oracle class exported-self-diff): a database's own export plans
+    NOTHING -- also when the database has inline UNIQUE constraints, which [supported] excludes on the current
+    side.  [diffable_auto] is C03's condition on the inspected tables (C03_hcl_except: unique names, typed columns,
+    defaults the document preserves, made-up names that do not collide). *)
+Theorem C01_exported_self_apply_is_noop :
+  forall (nm : str) (d1 : db),
+    schema_wf (inspect d1) -> Forall Hcl.SpecDiffAutoProofs.diffable_auto (inspect d1) ->
+    exists B, hcl_roundtrip (inspect d1) = ROk B /\
+      diff_and_plan nm (inspect d1) B = Some (mkPlan [] true true) /\
+      exec_all d1 (plan_stmts (mkPlan [] true true)) = Ok d1 /\ synced nm d1 B.
+Proof. exact exported_self_apply_noop. Qed.
+Print Assumptions C01_exported_self_apply_is_noop.
+Example C01_ex_self_apply :
+  schema_wf (inspect ex_u_db) /\ Forall Hcl.SpecDiffAutoProofs.diffable_auto (inspect ex_u_db) /\
+  map (fun c => length (ct_uniques c)) (db_tables ex_u_db) = [1%nat].
+Proof. split; [exact (proj1 ex_self_nonvacuous)|]. split; [exact (proj2 ex_self_nonvacuous)|reflexivity]. Qed.
 
 (** ** witnesses *)
 Definition nm : str := [109]%N.
@@ -371,3 +431,66 @@ Proof.
   split; vm_compute; reflexivity.
 Qed.
 Print Assumptions C01_converges_refuted_new_table_clash.
+
+(** *** round 5: the exported schema of users(id integer NOT NULL PRIMARY KEY, email text NULL UNIQUE) *)
+Definition n_users : str := [117;115;101;114;115]%N.
+Definition n_email : str := [101;109;97;105;108]%N.
+Definition ex_d1 : db :=
+  mkDB [mkCT (mkX (mkTable n_users false false [col n_id T_integer 2 false; col n_email T_text 3 true]
+                     (Some (pk_of [cpart 1 n_id false])) [] [] []) []) [[n_email]] []] false false.
+Definition ex_insp : xschema := Eval vm_compute in inspect ex_d1.
+Example C01_ex_insp : inspect ex_d1 = ex_insp.
+Proof. vm_compute. reflexivity. Qed.
+Definition ex_hcl : xschema := Eval vm_compute in map norm_x ex_insp.
+Example C01_ex_hcl : map norm_x (inspect ex_d1) = ex_hcl.
+Proof. vm_compute. reflexivity. Qed.
+(** the export carries the reserved name, no origin; the renaming gives users_email *)
+Example C01_ex_exported_shape :
+  map (fun x => map (fun i => (i_name i, i_unique i, i_origin i)) (t_idx (x_t x))) ex_hcl
+    = [[(SQLITE_AUTOINDEX ++ [95]%N ++ n_users ++ [95;49]%N, true, None)]] /\
+  map (fun x => map i_name (t_idx (x_t x))) (nrm ex_hcl) = [[n_users ++ [95]%N ++ n_email]] /\
+  stable_b ex_hcl = true /\ supported empty_db ex_hcl = false.
+Proof. vm_compute. repeat split; reflexivity. Qed.
+(** d2 = nothing / the table without the constraint / the table with the index an earlier apply made *)
+Definition ex_d2_plain : db := Eval vm_compute in
+  run empty_db [tbl n_users [col n_id T_integer 2 false; col n_email T_text 3 true] (Some (pk_of [cpart 1 n_id false])) [] [] []].
+Definition ex_d2_applied : db := Eval vm_compute in run empty_db ex_hcl.
+Example C01_ex_exported_supported :
+  supported_exported empty_db ex_hcl && supported_exported ex_d2_plain ex_hcl && supported_exported ex_d2_applied ex_hcl = true.
+Proof. vm_compute. reflexivity. Qed.
+Example C01_ex_exported_wf : schema_wf ex_insp.
+Proof.
+  split.
+  - constructor; [|constructor]. split; [|split; [|split]].
+    + constructor; [exact I|]. constructor; [exact I|constructor].
+    + constructor; [exists n_id; split; [reflexivity|vm_compute; reflexivity]|constructor].
+    + constructor; [|constructor]. split; [discriminate|]. constructor; [vm_compute; reflexivity|constructor].
+    + constructor.
+  - vm_compute. constructor; [intros []|constructor].
+Qed.
+(** the three plans: CREATE TABLE + CREATE UNIQUE INDEX users_email; CREATE UNIQUE INDEX users_email; nothing *)
+Example C01_ex_exported_plans :
+  (match diff_and_plan nm (inspect empty_db) ex_hcl with Some p => length (p_changes p) | None => 99 end,
+   match diff_and_plan nm (inspect ex_d2_plain) ex_hcl with Some p => length (p_changes p) | None => 99 end,
+   match diff_and_plan nm (inspect ex_d2_applied) ex_hcl with Some p => length (p_changes p) | None => 99 end,
+   converged ex_d2_applied ex_hcl, converged (run ex_d2_plain ex_hcl) ex_hcl,
+   (* a d2 that has the same inline constraint: outside the theorem, converges by computation (nothing to do) *)
+   converged ex_d1 ex_hcl)
+  = (2, 1, 0, true, true, true).
+Proof. vm_compute. reflexivity. Qed.
+
+(** *** round 5: where the exported scenario fails.  d1 = users(id, email UNIQUE) + CREATE INDEX users_email ON
+    users(email): a valid database; its export lists sqlite_autoindex_users_1 and users_email; [normalizeIdxName]
+    makes up the name users_email for the first, and the plan for an EMPTY database is CREATE TABLE, CREATE UNIQUE
+    INDEX users_email, CREATE INDEX users_email: "index users_email already exists".  The renaming is stable
+    ([stable_b]), the renamed schema has two indexes of one name, so it is outside [supported_exported].
+    Reproduced through the real CLI (known finding C01-exported-made-up-index-name-clash). *)
+Definition ex_clash_d1 : db :=
+  mkDB [mkCT (mkX (mkTable n_users false false [col n_id T_integer 2 false; col n_email T_text 3 true]
+                     (Some (pk_of [cpart 1 n_id false]))
+                     [mkIndex (n_users ++ [95]%N ++ n_email) false [cpart 1 n_email false] None None None] [] []) []) [[n_email]] []] false false.
+Theorem C01_converges_from_exported_hcl_refuted_name_clash :
+  exists d1 B, hcl_roundtrip (inspect d1) = ROk B /\ stable_b B = true /\ db_ok_b empty_db = true /\
+    apply_plan nm empty_db B = Some (Err EExists) /\ supported_exported empty_db B = false.
+Proof. exists ex_clash_d1. eexists. split; [vm_compute; reflexivity|]. vm_compute. repeat split; reflexivity. Qed.
+Print Assumptions C01_converges_from_exported_hcl_refuted_name_clash.
